@@ -159,12 +159,66 @@ def rule_R3(chk, repo, rid='C05.R3'):
             loop = s
     if loop is None:
         raise AnalysisError('from_opgraph: layer loop not found')
+    # a position table of the layer, `P = {x: j for j, x in enumerate(LAYER)}`, is the layer ordering held in another form:
+    # `P[e]` is the column `LAYER.index(e)` and `for x, j in P.items()` enumerates the layer (dicts keep insertion order);
+    # the table's definition is itself a consumer of the ordering (positions taken there are the ones used later)
+    posdict = {}
+    for n in ast.walk(loop):
+        if isinstance(n, ast.Assign) and len(n.targets) == 1 and isinstance(n.targets[0], ast.Name) and \
+                isinstance(n.value, ast.DictComp) and len(n.value.generators) == 1 and not n.value.generators[0].ifs:
+            g_ = n.value.generators[0]
+            if isinstance(g_.iter, ast.Call) and norm(g_.iter.func) == 'enumerate' and len(g_.iter.args) == 1 and \
+                    isinstance(g_.iter.args[0], ast.Name) and isinstance(g_.target, ast.Tuple) and len(g_.target.elts) == 2 and \
+                    norm(g_.target.elts[0]) == norm(n.value.value) and norm(g_.target.elts[1]) == norm(n.value.key) and \
+                    sum(1 for m in ast.walk(fi.node) if isinstance(m, ast.Name) and m.id == n.targets[0].id and
+                        isinstance(m.ctx, ast.Store)) == 1:
+                posdict[n.targets[0].id] = (g_.iter.args[0].id, n)
+    if posdict:
+        class _View(ast.NodeTransformer):
+            def visit_Subscript(self, node):
+                self.generic_visit(node)
+                if isinstance(node.value, ast.Name) and node.value.id in posdict and isinstance(node.ctx, ast.Load):
+                    c_ = ast.Call(func=ast.Attribute(value=ast.Name(id=posdict[node.value.id][0], ctx=ast.Load()), attr='index',
+                                                     ctx=ast.Load()), args=[node.slice], keywords=[])
+                    return ast.fix_missing_locations(ast.copy_location(c_, node))
+                return node
+
+            def visit_For(self, node):
+                self.generic_visit(node)
+                it = node.iter
+                if isinstance(it, ast.Call) and isinstance(it.func, ast.Attribute) and it.func.attr == 'items' and not it.args and \
+                        isinstance(it.func.value, ast.Name) and it.func.value.id in posdict and \
+                        isinstance(node.target, ast.Tuple) and len(node.target.elts) == 2:
+                    node.target = ast.Tuple(elts=[node.target.elts[1], node.target.elts[0]], ctx=ast.Store())
+                    node.iter = ast.Call(func=ast.Name(id='enumerate', ctx=ast.Load()),
+                                         args=[ast.Name(id=posdict[it.func.value.id][0], ctx=ast.Load())], keywords=[])
+                    ast.fix_missing_locations(node)
+                return node
+        node2 = _View().visit(_copy.deepcopy(fi.node))
+        fi = CanonFunc(fi, node2, dict(ren))
+        loop = [s for s in fi.node.body if isinstance(s, ast.While)][-1]
+        posdefs = {k_: v_[0] for k_, v_ in posdict.items()}
+    else:
+        posdefs = {}
     # find the layer variable: the name passed to .index(...) to compute a column
     layer = None
     for n in ast.walk(loop):
         if isinstance(n, ast.Call) and isinstance(n.func, ast.Attribute) and n.func.attr == 'index' and \
                 isinstance(n.func.value, ast.Name):
             layer = n.func.value.id
+    via_map = False
+    if layer is None:
+        # columns read back from the node map itself (`_, j = nid_map[edge.nids[1]]`): the map recorded by enumerating the
+        # layer IS the position table of the layer
+        for n in ast.walk(loop):
+            if isinstance(n, ast.For) and isinstance(n.iter, ast.Call) and norm(n.iter.func) == 'enumerate' and \
+                    len(n.iter.args) == 1 and isinstance(n.iter.args[0], ast.Name) and \
+                    any(isinstance(x, ast.Subscript) and norm(x.value) == 'nid_map' and isinstance(x.ctx, ast.Store)
+                        for x in ast.walk(n)) and \
+                    any(isinstance(x, ast.Subscript) and norm(x.value) == 'nid_map' and isinstance(x.ctx, ast.Load)
+                        for x in ast.walk(loop)):
+                layer = n.iter.args[0].id
+                via_map = True
     if layer is None:
         raise AnalysisError('from_opgraph: column lookup `<layer>.index(...)` not found')
     # straight-line order of top-level statements of the loop body: definitions of `layer` and consumers
@@ -189,6 +243,11 @@ def rule_R3(chk, repo, rid='C05.R3'):
             if isinstance(n, ast.Call) and isinstance(n.func, ast.Attribute) and n.func.attr == 'index' and \
                     norm(n.func.value) == layer:
                 events.append((pos, 'use:column', n))
+            if via_map and isinstance(n, ast.Subscript) and norm(n.value) == 'nid_map' and isinstance(n.ctx, ast.Load):
+                events.append((pos, 'use:column', n))
+            if isinstance(n, ast.Assign) and isinstance(n.targets[0], ast.Name) and posdefs.get(n.targets[0].id) == layer and \
+                    isinstance(n.value, ast.DictComp):
+                events.append((pos, 'use:positions', n))
             if isinstance(n, ast.Assign) and isinstance(n.value, ast.Name) and n.value.id == layer and \
                     any(isinstance(t, ast.Name) for t in n.targets):
                 events.append((pos, 'use:next_rows', n))
